@@ -332,7 +332,9 @@ func c12Roundtrip(p vbase.Params, r *vbase.Result) {
 			if withMsg {
 				v1 = other.Auth.Verify(tm.MsgSignature, tm.ToBytes())
 				v2 = other.Auth.Verify(back.MsgSignature, back.ToBytes())
-				if (v1 == nil) != (v2 == nil) || v1 != nil {
+				if v1 != nil && v2 != nil && w.LibraryDefect(tm.MsgSignature, func(hotstuff.ID) []byte { return tm.ToBytes() }) {
+					r.Obs("bls_library_defect_cases_skipped", 1)
+				} else if (v1 == nil) != (v2 == nil) || v1 != nil {
 					fail("timeoutmsg", "msg-verdict", fmt.Sprintf("message signature verdict %v before, %v after", v1, v2))
 				}
 			}
